@@ -236,8 +236,7 @@ Section InjectProof.
       destruct mf as [|[k1 v1] [|[k2 v2] r]]; simpl in *; [discriminate| |].
       - destruct (bytes_eqb k k1); [inversion Hg; subst; simpl; rewrite Hn; auto|discriminate].
       - destruct (bytes_eqb k k1); simpl; auto. destruct (bytes_eqb k k2); simpl; auto.
-        destruct r; simpl; auto. destruct (set_member k fv (p :: r)) eqn:Es; auto.
-        simpl in Es. destruct p. destruct (bytes_eqb k b); discriminate.
+        all: try (destruct r; simpl; auto).
     Qed.
 
     (* invariant of the loop: [ms] the original members, [mf] the members written so far, [fs] the fields still to do *)
